@@ -88,7 +88,7 @@ def scenarios(ctx):
 def run(ctx):
     ctx.level = "model_checking"
     # E1: the property predicates as invariants of the composite (spec/MC_Rapid.tla)
-    mcrapid.check(ctx, ['DoneOnlyAfterAll', 'EventsOnlyToSubscribers', 'FailResetShutdownOnlyToSubscribers'])
+    mcrapid.check(ctx, ['DoneOnlyAfterAll', 'EventsOnlyToSubscribers', 'FailResetShutdownOnlyToSubscribers'], extra_configs=('internal',) if ctx.quick else ('internal', 'internal2'))
     ctx.assumptions += sc.ASSUME
     scs = scenarios(ctx)
     sc.run_families(ctx, scs, "fanout")
